@@ -73,7 +73,7 @@ THEOREMS = [
         "cord2_roundtrip_values dmig_roundtrip_values dmig_lines_int_instance "
         "uset_bulk_roundtrip_labels uset_bulk_roundtrip_labels_full set_header_split_fails set_roundtrip_iff_partial "
         "set_header_split1_fails set_item_cut_reads set_item_cut_fails set_roundtrip_iff "
-        "file_ok_of_blocks written_file_ok_partial typed_readers_independent_written_partial readers_independent_written_partial "
+        "file_ok_of_blocks written_file_ok typed_readers_independent_written readers_independent_written "
         "dmig_field_fits dmig_terms_in_range "
         "tabled1_all_doubles tabled1_default_eq_before_fix tabled1_default_differs_iff"
     ).split()
@@ -156,11 +156,8 @@ PARTIAL = (
     "wtgrids / wttabled1 other than the defaults stay opaque tokens (reader returns nas_sscanf(token)); rdcord2cards is "
     "modelled up to the twelve numbers per card handed to n2p.build_coords and bulk2uset up to the labels (id, dof, "
     "nasset, cd id and type) and the written coordinates — the geometry of build_coords / addgrid is C14 (tied through the "
-    "real build_coords and the round-trip oracle); written_file_ok is proved only as written_file_ok_partial: FileOK (hypothesis of readers_independent) is DERIVED for "
-    "every file assembled in any order from admissible wtcsuper / wtextrn / wtspoints / wttabled1 / wtset blocks (hence "
-    "readers_independent_written_partial / typed_readers_independent_written_partial without the FileOK hypothesis) and the "
-    "assembly step is proved for any segments (file_ok_of_blocks); missing: the per-segment condition for the blocks of wtdmig, "
-    "wtgrids and wtcoordcards - for files holding them FileOK stays checked by the model on every generated file; the op2 path of rddmig "
+    "real build_coords and the round-trip oracle); written_file_ok ranges over the blocks of the modelled writers (wtdmig integer- and real-valued, wtgrids, wtcoordcards, wtcsuper, wtextrn, wtspoints, wttabled1 with the name TABLED1, wtset, $ comment lines) on the admissible inputs of their round-trip theorems; files with other junk lines (blank lines, foreign cards) keep the FileOK hypothesis, checked by the model on every generated file; "
+    "the op2 path of rddmig "
     "and its dmig_names filter are oracle-only / not modelled"
 )
 MANIFEST = {
@@ -189,9 +186,10 @@ MANIFEST = {
     "({:16.8e}), dmig_roundtrip_values ({:16.9E} / D) state the values read; files with the cards of several readers: each "
     "reader returns exactly its own cards' content regardless of the other cards, comments and SET statements present "
     "(readers_independent, typed for rddmig / rdgrids / rdcord2cards / rdspoints / rdcsupers / rdextrn / rdtabled1); "
-    "the hypothesis FileOK of these is derived, not assumed, for every file assembled in any order from admissible wtcsuper / "
-    "wtextrn / wtspoints / wttabled1 / wtset blocks (written_file_ok_partial; assembly of any well-formed segments: "
-    "file_ok_of_blocks); "
+    "the hypothesis FileOK of these is derived, not assumed, for every file assembled in any order from the texts of wtdmig "
+    "(integer- and real-valued), wtgrids, wtcoordcards, wtcsuper, wtextrn, wtspoints, wttabled1, wtset and $ comment lines on "
+    "admissible inputs (written_file_ok, hence readers_independent_written / typed_readers_independent_written; assembly of "
+    "any well-formed segments: file_ok_of_blocks); "
     "uset2bulk -> bulk2uset at the table level: per grid sorted by id (id, cd, type of cd), six DOF, b-set; scalar points "
     "are not written (label-for-label identity exactly for sorted all-grid b-set tables, cd != cp included); "
     "writer.vecwrite's length rule and broadcast semantics, wtgrids for every packaging, rdgrids(wtgrids), "
@@ -206,8 +204,7 @@ MANIFEST = {
     "integer formatting; C12's float-format model (tied again here by an exact-text stream). Not proved (tied by "
     "correspondence / oracle only): user-supplied `form` strings other than "
     "the defaults (opaque tokens); n2p.build_coords / addgrid / mkcordcardinfo geometry behind rdcord2cards / bulk2uset / "
-    "uset2bulk (C14); FileOK for written files that hold DMIG / GRID / CORD2x blocks (derived in Lean only for files of CSUPER / "
-    "EXTRN / SPOINT / TABLED1 / SET blocks: written_file_ok_partial; otherwise checked per generated file by the model's own "
+    "uset2bulk (C14); FileOK for files that hold lines other than written blocks and $ comments (blank lines, foreign cards: checked per generated file by the model's own "
     "decision procedure); op2 DMIG. Findings: a NEGATIVE value with a three-digit decimal exponent needs 17 characters in '{:16.9E}' — "
     "F64 wtdmig (repaired by 4411a34: _dmig_field falls back to '{:16.8E}'; modelled, translated, dmig_field_fits; regression "
     "guard in the oracle), F65 wttabled1 default pair format (repaired by 328435d: the default case is formatted value by "
